@@ -29,7 +29,14 @@ def efun(x):
     Returns:
         float: x/[exp(x)-1]
     """
-    return x / (save_exp(x) - 1.0)
+    # `expm1` avoids the cancellation in `exp(x) - 1` for small `x`. At `x = 0` the
+    # expression is 0/0, so we use its Taylor expansion there (double `where` such
+    # that gradients are also finite).
+    is_small = jnp.abs(x) < 1e-8
+    x_safe = jnp.where(is_small, 1.0, x)
+    return jnp.where(
+        is_small, 1.0 - x / 2.0, x / jnp.expm1(jnp.minimum(x_safe, 20.0))
+    )
 
 
 class Leak(Channel):
